@@ -1,8 +1,9 @@
 (* C01, layer 2: the ideal single-register machine and the translation of Model-V operations to it.
    State: the identities of the live physical qubits in creation order, and ONE tableau over them.
    A Model-V operation is translated through the ghost identities only (v_qid of the handle it names; a created qubit
-   gets the identity next_hid); where the qubit is simulated never enters.  Operations that Model V refuses or
-   ignores translate to INop. *)
+   gets the identity next_hid, whether it is created in a register of its own or inside an existing register); where the
+   qubit is simulated never enters.  Operations that Model V refuses or ignores, and the creation of an empty register,
+   translate to INop. *)
 From Coq Require Import List Bool Arith Lia.
 From SQ Require Import Base.ListUtil Stab.Pauli Stab.Kernels Stab.Tableau Net.Model.
 Import ListNotations.
@@ -75,6 +76,9 @@ Definition tr (s : net) (o : op) : iop :=
       | Some (_, q) => IMeas (v_qid q) ip c
       | None => INop
       end
+  | ONewReg _ _ => INop          (* an empty register holds no qubit: nothing happens to the ideal register *)
+  | ONewInReg _ _ _ =>            (* a qubit created inside an existing register is just a fresh |0> qubit *)
+      match snd (step s o) with Ok _ => ICreate (next_hid s) | _ => INop end
   end.
 
 (* each operation is translated in the network state in which it is issued *)
